@@ -13,7 +13,7 @@ RULE = ("seeded gen_coords runs with generated build files: in/out sphere, cylin
         "independent predicates; non-trivial = some restraint selects a generated residue; distinct = distinct event-log digests")
 ASSUMPTIONS = wa.ASSUMPTIONS + ["geometric 'in' regions are generated large enough and 'out' regions small enough to be satisfiable"]
 REAL_VS_STUB = wa.REAL_VS_STUB
-PROBES = wa.PROBES + ["restraint_selects_generated_residue", "direction_restricted_step", "direction_restricted_step_wrapped",
+PROBES = wa.PROBES + ["distance_restraint_beyond_half_box", "restraint_selects_generated_residue", "direction_restricted_step", "direction_restricted_step_wrapped",
                       "distance_restraint_checked", "persistence_sampled", "cycle_checked"]
 PROFILE = {"shapes": ["linear", "linear", "linear", "ring", "ring", "comb", "single"], "maxres": 10, "n_moltypes": (1, 2),
            "n_entries": (1, 3), "max_molecules": 6, "max_count": 3, "box_modes": ["cubic", "noncubic"],
@@ -83,6 +83,25 @@ def gen_job(verif_seed, tier, index):
     job["c07_mode"] = mode
     if kinds:
         job["build_spec"] = bldgen.gen_build_spec(g, spec, box, kinds, est_size=sizes)
+    if mode == "dist" and g.random() < 0.25:
+        # one long chain in a box whose edge is less than twice the restrained distance: the restrained pair is
+        # nearer through a box face than inside the cell for many conformations
+        rn = sorted(spec["restypes"])[0]
+        n = g.randint(12, 18)
+        mt = spec["moltypes"][0]
+        for k in ("list_order", "residue_override", "restype_override", "resid_restart"):
+            mt.pop(k, None)
+        mt.update({"shape": "linear", "residues": [rn] * n, "edges": [[k, k + 1] for k in range(n - 1)]})
+        spec["molecules"] = [[mt["name"], g.randint(1, 2)]]
+        s1 = topgen.est_size(spec["restypes"][rn])
+        d = round(0.5 * (n - 1) * s1, 3)
+        edge = round(d / g.uniform(0.52, 0.6), 3)
+        job["opts"].pop("density", None)
+        job["opts"]["box"] = [edge, edge, edge]
+        job["build_spec"] = [{"mol": mt["name"], "from": 0, "to": spec["molecules"][0][1],
+                              "items": [{"kind": "dist", "a": 0, "b": n - 1, "d": d, "tol": round(g.uniform(0.2, 0.3), 3),
+                                         "reversed": g.random() < 0.3}]}]
+        job["restraint_beyond_half_box"] = True
     if mode == "cycle" and g.random() < 0.5:
         for mt in spec["moltypes"]:
             n = len(mt["residues"])
@@ -113,6 +132,8 @@ def gen_job(verif_seed, tier, index):
 
 def _nontrivial(job, res):
     p = res.get("probes", {})
+    if job.get("restraint_beyond_half_box") and p.get("distance_restraint_checked"):
+        res["probes"]["distance_restraint_beyond_half_box"] = 1
     return any(p.get(k) for k in ("restraint_selects_generated_residue", "direction_restricted_step",
                                   "distance_restraint_checked", "persistence_sampled", "cycle_checked"))
 
